@@ -282,6 +282,87 @@ def unit_calc_bin(U):
             U.prove("C12._bin_from_dict.%s#p%d" % (shape, p.index), text, p.pc, goal, {"start": s, "end": e}, replay=replay3)
 
 
+def unit_stored_bin(U):
+    """every statement that writes a row of `features` stores bin = bins(start, end) of the feature it writes:
+    _DBCreator._insert / _replace (import, merge_strategy='replace') and FeatureDB._insert / _update (add_relation
+    callbacks).  The column a value goes to is taken from the SQL text, the value from its position in the arguments."""
+    import sqlite3
+    import gffutils.create as C
+    import gffutils.interface as I
+    from pyvc import ghostdb
+    from pyvc import sqlmodel as Q
+    from contracts import importer as IM
+    from contracts.qharness import blank_db
+    import gffutils
+    s, e = z3.Int("start"), z3.Int("end")
+    writers = [("creator._insert", C._DBCreator._insert, "creator"), ("creator._replace", C._DBCreator._replace, "creator"),
+               ("db._insert", I.FeatureDB._insert, "db"), ("db._update", I.FeatureDB._update, "db")]
+    for name, fn, owner in writers:
+        it = Interp()
+        it.contracts[B.bins] = bins_contract
+        IM.install_json(it)
+
+        def run(ctx, fn=fn, owner=owner):
+            ctx.assume(s <= e)
+            fid, _ = IM.sval("f.ID")
+            f, _ = IM.sym_feature("f", {"ID": [fid]})
+            f.start, f.end = SInt(s), SInt(e)
+            f.id = fid
+            f.bin = SInt(z3.Int("stale_bin"))          # whatever was cached on the object
+            conn = ghostdb.GhostConn()
+            slf = IM.blank_creator(C._GFFDBCreator, conn) if owner == "creator" else blank_db()
+            if owner == "db":
+                slf.conn = conn
+            it.call(fn, [slf, f, conn.cursor()], {})
+            return f
+
+        def replay(m, name=name):
+            a, b = int(m.get("start", 1)), int(m.get("end", 1))
+            obs = []
+            for (a0, b0) in ((a, b) if 1 <= a <= b < 2 ** 29 else (1, 5), (1, 5), (131073, 131080), (1, 300000)):
+                # a stored feature is replaced by one with the same id and other coordinates, through the real API
+                old = F.Feature(seqid="c", featuretype="gene", start=7, end=9, attributes={"ID": ["k"]})
+                new = F.Feature(seqid="c", featuretype="gene", start=a0, end=b0, attributes={"ID": ["k"]})
+                try:
+                    if "replace" in name or "update" in name:
+                        db = gffutils.create_db([old, new], ":memory:", merge_strategy="replace")
+                    else:
+                        db = gffutils.create_db([new], ":memory:")
+                    row = list(db.conn.execute("SELECT start, end, bin FROM features WHERE id = 'k'"))[0]
+                    exp = S.bin1(a0, b0, "gff")
+                    obs.append(((a0, b0), tuple(row), exp))
+                    if tuple(row) != (a0, b0, exp) or db["k"].bin != exp:
+                        return {"inputs": {"writer": name, "start": a0, "end": b0}, "expected": (a0, b0, exp), "observed": tuple(row), "violates": True}
+                except Exception as ex:
+                    return {"inputs": {"writer": name, "start": a0, "end": b0}, "observed": "raised %r" % (ex,), "violates": True}
+            return {"inputs": {"writer": name}, "observed": obs, "violates": False}
+        for p in U.explore(run, it):
+            if p.kind != "return":
+                U.prove("C12.stored_bin[%s].noraise#p%d" % (name, p.index), "writing a row raises nothing (got %r)" % (p.value,), p.pc, z3.BoolVal(False), {"start": s, "end": e}, replay=replay)
+                continue
+            effs = [x for x in IM.classify(p.ctx.effects) if x.kind in ("insert", "update") and x.table == "features"]
+            goal = z3.BoolVal(False)
+            if len(effs) == 1:
+                x = effs[0]
+                try:
+                    if x.kind == "insert":
+                        t, conflict, cols, exprs = IM.insert_info(x.stmt.node)
+                        args = list(x.args)
+                        pairs = dict(zip(cols or Q.FEATURE_COLS, args)) if all(Q.expr_text(v).strip() == "?" for v in exprs) and len(args) == len(exprs) else {}
+                    else:
+                        import lark
+                        assigns = [c for c in x.stmt.node.children if isinstance(c, lark.Tree) and c.data == "assign"]
+                        args = list(x.args)
+                        pairs = {str(a.children[0]): v for a, v in zip(assigns, args)} if all(Q.expr_text(a.children[-1]).strip() == "?" for a in assigns) else {}
+                    b_ = pairs.get("bin")
+                    if isinstance(b_, (SInt, int)) and isinstance(pairs.get("start"), SInt) and isinstance(pairs.get("end"), SInt):
+                        goal = z3.And(Eq(b_, S.bin1(s, e, "gff")), pairs["start"].e == s, pairs["end"].e == e)
+                except (Q.SQLArgs, Q.SQLSyntax, Undecided, KeyError):
+                    goal = z3.BoolVal(False)
+            U.prove("C12.stored_bin[%s]#p%d" % (name, p.index), "the one statement writing the features row stores start, end and bin == bins(start, end) of the feature written (never a cached or previous bin)",
+                    p.pc, goal, {"start": s, "end": e}, replay=replay)
+
+
 def unit_boundary(U):
     """Bounded stand-in named by the statement's quantifier: all pairs within +-2 of every bin
     boundary multiple (sampled multiples), 0 and 2**29; contract clauses evaluated natively."""
@@ -326,7 +407,7 @@ def unit_boundary(U):
 
 UNITS = [("bins[gff,one]", _unit_bins("gff", True)), ("bins[gff,set]", _unit_bins("gff", False)),
          ("bins[bed,one]", _unit_bins("bed", True)), ("bins[bed,set]", _unit_bins("bed", False)),
-         ("lemma.nest", unit_nest), ("calc_bin", unit_calc_bin),
+         ("lemma.nest", unit_nest), ("calc_bin", unit_calc_bin), ("stored_bin", unit_stored_bin),
          ("bounded.boundaries", unit_boundary)]
 
 
